@@ -116,7 +116,17 @@ func (r *Run) Seen(set, value string) {
 func (r *Run) Violate(sig, what string, detail any) {
 	r.mu.Lock()
 	defer r.mu.Unlock()
-	if len(r.Violations) >= 200 {
+	if len(r.Violations) >= 400 {
+		return
+	}
+	same := 0
+	for _, v := range r.Violations {
+		if v.Sig == sig {
+			same++
+		}
+	}
+	if same >= 3 { // a few instances per signature suffice; keep room for other signatures
+		r.Counters["violations_not_listed."+sig]++
 		return
 	}
 	r.Violations = append(r.Violations, Violation{Property: r.Property, Sig: sig, What: what, Detail: detail})
